@@ -174,6 +174,16 @@ def gen(rng, tier):
                 a = sa * val(pat(rng, la, "rand")); b = sb * val(pat(rng, lb, "rand"))
                 for op in I_OPS:
                     reqs.append("C02 %s %s %s" % (op, wi(a), wi(b)))
+    # --- scalar forms (`* u32/u64/u128`, `*=`, scalar on either side): one-digit fast paths (0, 1, powers of two,
+    #     general) and the two-digit u128 path through mul3, on zero / one-digit / long receivers
+    for (sfx, bits) in (("u64", 64), ("u128", 128)):
+        top = (1 << bits) - 1
+        scs = [0, 1, 2, 3, 1 << 31, 1 << 32, 1 << 63, MAX, top, top - 1, 1 << (bits - 1), rng.randrange(top + 1), rng.randrange(1, B)]
+        if bits == 128:
+            scs += [B, B + 1, 3 * B, B * (B - 1), (1 << 100), (1 << 127) + 1, rng.randrange(B, top)]
+        for sc in scs:
+            for a in (0, 1, 2, MAX, B, B - 1, B * B - 1, big(rng, 2), big(rng, 3), big(rng, 9), val([MAX] * 4), big(rng, tS + 2)):
+                reqs.append("C02 u.mul_%s %s %d" % (sfx, wu(a), sc))
     # --- regime x shape x pattern
     rounds = 3 if tier == "thorough" else 1
     for _ in range(rounds):
